@@ -374,6 +374,20 @@ pub fn check_cmp_strings(input: &[u8]) {
     let c = CharacterData::String(ascii_string(&input[2 * n..]));
     check_cmp_laws(&a, &b, &c);
 }
+/// mixed lengths: input = a ++ 0xff ++ b ++ 0xff ++ c (three String values)
+pub fn check_cmp_strings_sep(input: &[u8]) {
+    let mut parts: [&[u8]; 3] = [&[], &[], &[]];
+    let mut k = 0; let mut start = 0; let mut i = 0;
+    while i <= input.len() {
+        if i == input.len() || input[i] == 0xff { if k < 3 { parts[k] = &input[start..i]; } k += 1; start = i + 1; }
+        i += 1;
+    }
+    if k != 3 || !all_ascii(parts[0]) || !all_ascii(parts[1]) || !all_ascii(parts[2]) { return; }
+    let a = CharacterData::String(ascii_string(parts[0]));
+    let b = CharacterData::String(ascii_string(parts[1]));
+    let c = CharacterData::String(ascii_string(parts[2]));
+    check_cmp_laws(&a, &b, &c);
+}
 macro_rules! cmps_len {
     ($name:ident, $n:literal) => {
         #[cfg_attr(kani, kani::proof)]
@@ -393,6 +407,6 @@ vk_dispatch! {
                 float_pref_len1, float_pref_len2, float_pref_len3, float_pref_len4, check_value_all, version_compat_all,
                 cmp_laws_EEE, cmp_laws_EEU, cmp_laws_EEF, cmp_laws_EES, cmp_laws_EUE, cmp_laws_EUU, cmp_laws_EUF, cmp_laws_EUS, cmp_laws_EFE, cmp_laws_EFU, cmp_laws_EFF, cmp_laws_EFS, cmp_laws_ESE, cmp_laws_ESU, cmp_laws_ESF, cmp_laws_ESS, cmp_laws_UEE, cmp_laws_UEU, cmp_laws_UEF, cmp_laws_UES, cmp_laws_UUE, cmp_laws_UUU, cmp_laws_UUF, cmp_laws_UUS, cmp_laws_UFE, cmp_laws_UFU, cmp_laws_UFF, cmp_laws_UFS, cmp_laws_USE, cmp_laws_USU, cmp_laws_USF, cmp_laws_USS, cmp_laws_FEE, cmp_laws_FEU, cmp_laws_FEF, cmp_laws_FES, cmp_laws_FUE, cmp_laws_FUU, cmp_laws_FUF, cmp_laws_FUS, cmp_laws_FFE, cmp_laws_FFU, cmp_laws_FFF, cmp_laws_FFS, cmp_laws_FSE, cmp_laws_FSU, cmp_laws_FSF, cmp_laws_FSS, cmp_laws_SEE, cmp_laws_SEU, cmp_laws_SEF, cmp_laws_SES, cmp_laws_SUE, cmp_laws_SUU, cmp_laws_SUF, cmp_laws_SUS, cmp_laws_SFE, cmp_laws_SFU, cmp_laws_SFF, cmp_laws_SFS, cmp_laws_SSE, cmp_laws_SSU, cmp_laws_SSF, cmp_laws_SSS, cmp_laws_strings_len1, cmp_laws_strings_len2];
     checks: [int_u8 => check_int_u8, int_i8 => check_int_i8, int_u16 => check_int_u16, int_i16 => check_int_i16, int_u32 => check_int_u32, int_i32 => check_int_i32,
-             int_u64 => check_int_u64, int_i64 => check_int_i64, bool => check_bool, float_prefixed => check_float_prefixed, cmp_strings => check_cmp_strings];
+             int_u64 => check_int_u64, int_i64 => check_int_i64, bool => check_bool, float_prefixed => check_float_prefixed, cmp_strings => check_cmp_strings, cmp_strings_sep => check_cmp_strings_sep];
 }
 
